@@ -190,3 +190,16 @@ def run(ctx):
     ctx.guard("R11.2", "checked", lambda: r11_2(ctx))
     ctx.guard("R11.3", "validators", lambda: r11_3(ctx))
     ctx.guard("R11.5", "nf", lambda: nf_common.nf_rule(ctx, "R11.5", AREA, floor=170))
+
+    def witnesses():
+        from lib.witness import run_witnesses
+
+        res = [w for w in run_witnesses() if w[0] in ('UncheckedPrimitivesAreUnsafe', 'Utf8TendrilNeedsValidation')]
+        for k, (item, kind, ok, line) in enumerate(sorted(res)):
+            ctx.ob("R11.3w", "witness/%s/%s#%d" % (item, kind, k), ok, ("does not compile, with the expected error code" if kind == "compile_fail" else "compiling twin compiles") if ok else "witness %s (%s, engines/witness/src/lib.rs:%d) did not behave as required" % (item, kind, line))
+        ctx.floor("R11.3w", "witnesses", len(res), 7)
+
+    if ctx.tier == "thorough":
+        ctx.rule("R11.3w", "compile-fail witnesses with compiling twins (rustdoc, nightly, error codes checked)")
+        ctx.guard("R11.3w", "witness", witnesses)
+
